@@ -170,6 +170,28 @@ def main(replay=None):
                     hist.append(("J", rng.choice([1, mx * 500, mx * 1000, mx * 20000, mx * 1000000]))); exp.append(None)
             if any(e for e in exp):
                 add("history", hist, (mx, tick, default_cap), exp, "history%d" % i)
+        # 2b. an expression evaluated on the idle VM the way the preprocessor evaluates __EVAL(..) is a run of its own: however old the
+        #     VM is and whatever ran before, a short expression yields its value (implementation only; the model has no such entry)
+        for i in range(400 if thorough else 24):
+            mx, tick = rng.choice([(2, 100), (5, 250), (10, 1000)])
+            hist, exp = [], []
+            if rng.random() < 0.6:
+                hist.append(("J", rng.choice([mx * 1000, mx * 3000, mx * 50000]))); exp.append(None)
+            for k in range(rng.randint(0, 2)):
+                if rng.random() < 0.5:
+                    hist += [("L", straight(2, 100 * k)), ("S",)]; exp += [None, ("complete", [str(100 * k + 1), str(100 * k + 2)])]
+                else:
+                    nm, (prog, nocap) = rng.choice(pool_end)
+                    if nocap:
+                        continue
+                    hist += [("L", prog), ("S",)]; exp += [None, ("cut",)]
+                hist.append(("J", rng.choice([1, mx * 1000, mx * 20000]))); exp.append(None)
+            a, b = rng.randint(1, 50), rng.randint(1, 50)
+            hist.append(("E", "%d + %d" % (a, b))); exp.append(("eval", "%d" % (a + b)))
+            if rng.random() < 0.5:
+                hist += [("J", mx * 4000), ("E", "[%d, %d] select 1" % (a, b))]; exp += [None, ("eval", "%d" % b)]
+            hist += [("L", short), ("S",)]; exp += [None, ("complete", ["77"])]
+            add("eval", hist, (mx, tick, default_cap), exp, "eval%d" % i)
         # 3. single-stepping, a pause, then start: the run began at the first step (correspondence; time bound only)
         for i in range(300 if thorough else 12):
             mx, tick = rng.choice([(2, 100), (5, 250)])
@@ -213,7 +235,7 @@ def main(replay=None):
             cases[i]["res"] = d
 
     kinds, distinct, samples = {}, set(), []
-    ncut = ncomplete = ncap = 0
+    ncut = ncomplete = ncap = neval = 0
     for c in cases:
         d = c["res"]
         mx, tick, cap = c["cfg"]
@@ -225,10 +247,26 @@ def main(replay=None):
             samples.append({"kind": c["kind"], "name": c["name"], "cfg": list(c["cfg"]), "texts": [t[:160] for t in (d.get("texts") or [])],
                             "impl": [o[:120] for o in d["i_obs"]]})
         bad = None
-        if len(d["i_obs"]) != len(c["hist"]):
+        # expressions evaluated like __EVAL(..): judged on their own (the model does not have them)
+        evs = [(cmd, exp) for cmd, exp in zip(c["hist"], c["expect"]) if cmd[0] == "E"]
+        hist_m = [cmd for cmd in c["hist"] if cmd[0] != "E"]
+        expect_m = [exp for cmd, exp in zip(c["hist"], c["expect"]) if cmd[0] != "E"]
+        if evs and len(d.get("i_eval", [])) == len(evs):
+            for (cmd, exp), o in zip(evs, d["i_eval"]):
+                f = o[1:].split(":", 4)
+                neval += 1
+                if len(f) < 5 or f[0] != "1" or V.unhx(f[1]).decode("latin-1") != exp[1] or f[2] != "0":
+                    bad = ("the expression %r evaluated on the idle VM (as __EVAL does) did not yield %s: ok=%s value=%r state=%s events=%s"
+                           % (cmd[1], exp[1], f[0], V.unhx(f[1]).decode("latin-1") if len(f) > 1 else "?", f[2] if len(f) > 2 else "?", f[4][:80] if len(f) > 4 else ""))
+                    break
+        elif evs:
+            bad = "the history did not come back: %s" % d.get("impl_raw", "")[:120]
+        if bad:
+            pass
+        elif len(d["i_obs"]) != len(hist_m):
             bad = "the history did not come back: %s" % " ".join(d["i_obs"])[:120]
         else:
-            for n, (cmd, exp, obs) in enumerate(zip(c["hist"], c["expect"], d["i_obs"])):
+            for n, (cmd, exp, obs) in enumerate(zip(hist_m, expect_m, d["i_obs"])):
                 if cmd[0] != "S":
                     continue
                 pr = SC.parse_run(obs)
@@ -267,6 +305,8 @@ def main(replay=None):
         if bad:
             run.violation(bad, rep)
             continue
+        if evs:
+            continue     # an evaluation reads the clock: the model, which does not have it, is at other times afterwards
         if any(o.startswith(("HANG", "UNSUPPORTED", "UB")) for o in d["m_obs"]):
             if any(o.startswith("UNSUPPORTED") for o in d["m_obs"]):
                 kinds["left_the_modelled_fragment"] = kinds.get("left_the_modelled_fragment", 0) + 1
@@ -290,7 +330,7 @@ def main(replay=None):
                        "to 10^6 x limit; single steps + pause + start; abort; while loops under caps 1, 2, 7, the default and random caps with "
                        "the counter read inside the loop; random programs cut at a random instruction. A case is distinct by (program texts, "
                        "limit, tick, cap)")
-    run.cov["input_distribution"] = dict(kinds, runs_cut=ncut, runs_complete=ncomplete, caps_checked=ncap)
+    run.cov["input_distribution"] = dict(kinds, runs_cut=ncut, runs_complete=ncomplete, caps_checked=ncap, expressions_evaluated_like_EVAL=neval)
     run.cov["samples"] = samples
     run.cov["constants"] = consts
     run.cov["trusted_base"] = ["Coq 8.16.1 kernel (vm_compute in Examples and the two switch-on witnesses)", "ExtrOcamlBasic extraction + ocaml/sched_driver.ml",
